@@ -277,7 +277,7 @@ func c03Oracle(p c03Params) func(tr *mc.Trace) []h.Violation {
 			return vs
 		}
 		acked := 0 // requests acknowledged so far (clause v)
-		for _, r := range order {
+		for ri, r := range order {
 			if len(r.txs) == 0 {
 				continue
 			}
@@ -298,14 +298,39 @@ func c03Oracle(p c03Params) func(tr *mc.Trace) []h.Violation {
 				bad("late-return", "Send id=%d first transmitted %v returned %v, later than the response timeout %v", r.id, t0, r.ret, T)
 			}
 			// (iii) availability analysis
+			// An acknowledgement on offer while an earlier Send was waiting was taken by that Send
+			// (as its own, or dropped as a mismatch); at an instant shared with that Send's start or
+			// return either order is possible.
+			gone := func(a c03Ack) (definitely, possibly bool) {
+				for _, q := range order[:ri] {
+					if len(q.txs) == 0 || !q.hasRet {
+						continue
+					}
+					at := a.t
+					if q.txs[0] > at {
+						at = q.txs[0]
+					}
+					if at < q.ret && a.t+R > q.txs[0] {
+						return true, true
+					}
+					if at <= q.ret && a.t+R >= q.txs[0] {
+						possibly = true
+					}
+				}
+				return false, possibly
+			}
 			var strict, loose []c03Ack
 			for _, a := range acks {
 				if a.ch != c03Channel || a.seq != r.seq {
 					continue
 				}
+				def, poss := gone(a)
+				if def {
+					continue
+				}
 				if a.t+R >= t0 && a.t <= t0+T {
 					loose = append(loose, a)
-					if a.t+R > t0 && a.t < t0+T {
+					if a.t+R > t0 && a.t < t0+T && !poss {
 						strict = append(strict, a)
 					}
 				}
